@@ -107,7 +107,18 @@ def main(root, repo_src):
                     try:
                         m = build(v)
                         groups = sorted({betterproto.FieldMetadata.get(f).group for f in dataclasses.fields(v) if betterproto.FieldMetadata.get(f).group})
-                        out["classes"][key] = [bytes(m).hex(), m.to_json(), [betterproto.which_one_of(m, g)[0] for g in groups]]
+                        rec = [bytes(m).hex(), m.to_json(), [betterproto.which_one_of(m, g)[0] for g in groups]]
+                        # the same class after a wire round trip and after selecting another member of each oneof by assignment
+                        p = v().parse(bytes(m))
+                        for g in groups:
+                            cur = betterproto.which_one_of(p, g)[0]
+                            for f in dataclasses.fields(v):
+                                md = betterproto.FieldMetadata.get(f)
+                                if md.group == g and f.name != cur and md.proto_type not in ("message", "enum", "map"):
+                                    setattr(p, f.name, scalar(md.proto_type, 0))        # (its zero-ish value: still the selected member)
+                                    break
+                        rec += [bytes(p).hex(), p.to_json(), [betterproto.which_one_of(p, g)[0] for g in groups]]
+                        out["classes"][key] = rec
                     except Exception as ex:
                         out["errors"].append([key, type(ex).__name__ + ": " + str(ex)[:150]])
     except Exception as ex:
